@@ -195,9 +195,9 @@ def _catalogue(tier, seed):
                 out.append((2, "Open%s s-alternating p%s d%d" % (shape0, pd[-1], depth),
                             O(shape0, [splits_l[l % len(splits_l)] for l in range(depth)], [pd[-1]] * depth)))
     # ---- HEALPix
-    hp = [(1, []), (1, [4]), (1, [4, 4]), (1, [16]), (1, [1, 4]), (2, []), (2, [4])]
+    hp = [(1, []), (1, [4]), (1, [4, 4]), (1, [16]), (2, [])]
     if not q:
-        hp += [(2, [4, 4]), (2, [16]), (1, [4, 4, 4]), (1, [4, 16]), (2, [4, 1])]
+        hp += [(1, [1, 4]), (2, [4]), (2, [4, 4]), (2, [16]), (1, [4, 4, 4]), (1, [4, 16]), (2, [4, 1])]
     for ns, sp in hp:
         out.append((3, "HEALPix nside0=%d s%s" % (ns, sp), HP(ns, sp)))
     # ---- simple open / log / broken log
@@ -210,7 +210,9 @@ def _catalogue(tier, seed):
                             SO(ms, window, splits, depth, dist)))
     out.append((4, "SimpleOpen[12] depth=auto", SO([12], 3, 2, None, None, desired_size0=4)))
     out.append((4, "SimpleOpen[5] splits-per-level", SO([5], 3, [[2], [3]], None, None)))
-    out.append((4, "SimpleOpen[4,3] window-tuple", SO([4, 3], "tuple33", 2, 1, None)))
+    wt = SO([4, 3], "tuple33", 2, 1, None)       # window_size: Union[int, Tuple[int]] (documented type)
+    wt["all_levels"] = True
+    out.append((4, "SimpleOpen[4,3] window-tuple", wt))
     for ms in ([3], [6]):
         ws = [(3, 2), (5, 3)] if q else list(itertools.product((3, 5), (2, 3)))
         for (window, splits), depth in itertools.product(ws, range(0, 3)):
@@ -227,28 +229,30 @@ def _catalogue(tier, seed):
     o1 = O([4], [[2], [2]], [[1], [1]])
     h1 = HP(1, [4, 4])
     prods = [("Grid x Grid", P(g1, g1b)), ("Grid x Grid2d", P(g1, g2)), ("Open x Grid", P(o1, g1)),
-             ("Grid x HEALPix", P(g1, h1)), ("HEALPix x Open", P(h1, o1))]
+             ("Grid x HEALPix", P(g1, HP(1, [4, 4]) if not q else HP(1, [4])))]
     if not q:
-        prods += [("Grid x HEALPix x Grid2d", P(G([3], [[2], [2]]), h1, G([3, 2], [[1, 2], [1, 2]]))),
+        prods += [("HEALPix x Open", P(h1, o1)),
+                  ("Grid x HEALPix x Grid2d", P(G([3], [[2], [2]]), h1, G([3, 2], [[1, 2], [1, 2]]))),
                   ("(Grid x Open) x Grid nested", P(P(g1, o1), g1b)),
                   ("Log x Grid", P(SO([3], 3, 2, 2, None, kind="log", radii=list(fl["radii"][0])), g1))]
     for lb, p in prods:
         out.append((6, "MGrid " + lb, p))
     for kind, rr in (("log", fl["radii"][0]), ("blog", fl["broken"][0])):
         out.append((6, "HP%sRGrid nside0=1 nside=2" % kind, HPR(kind, 1, 2, 3, rr)))
-        out.append((6, "HP%sRGrid nside0=1 nside=1" % kind, HPR(kind, 1, 1, 3, rr)))
         if not q:
+            out.append((6, "HP%sRGrid nside0=1 nside=1" % kind, HPR(kind, 1, 1, 3, rr)))
             out.append((6, "HP%sRGrid nside0=1 nside=4 w5" % kind, HPR(kind, 1, 4, 4, rr, window=5)))
     # ---- flat grids
     inners = [("Grid1d", G([3], [[2], [2]])), ("Grid2d", G([2, 3], [[2, 2], [1, 2]])),
-              ("Grid2d-mixed", G([3, 2], [[2, 2], [2, 3]])), ("Grid3d", G([1, 2, 3], [[1, 2, 3]])),
-              ("HEALPix", HP(1, [4])), ("Grid x Grid", P(g1, g1b)), ("Grid x HEALPix", P(g1, HP(1, [4, 4])))]
+              ("Grid2d-mixed", G([3, 2], [[2, 2], [2, 3]])),
+              ("HEALPix", HP(1, [4])), ("Grid x Grid", P(g1, g1b))]
     if not q:
-        inners += [("Grid2d-d3", G([2, 3], [[2, 2], [1, 2], [3, 1]])), ("HEALPix-d2", h1), ("Grid1d-d3", G([2], [[2], [3], [2]]))]
+        inners += [("Grid3d", G([1, 2, 3], [[1, 2, 3]])), ("Grid x HEALPix", P(g1, HP(1, [4, 4]))),
+                   ("Grid2d-d3", G([2, 3], [[2, 2], [1, 2], [3, 1]])), ("HEALPix-d2", h1), ("Grid1d-d3", G([2], [[2], [3], [2]]))]
     for (lb, g), ordering in itertools.product(inners, ("serial", "nest")):
         out.append((7, "Flat-%s %s" % (ordering, lb), F(g, ordering)))
-    for lb, g in (("Open1d", o1), ("Open2d", O([4, 5], [[2, 2]] * 2, [[1, 1]] * 2)), ("Open x Grid", P(o1, g1)),
-                  ("SimpleOpen", SO([3], 3, 2, 2, None))):
+    for lb, g in ((("Open1d", o1), ("Open2d", O([4, 5], [[2, 2]] * 2, [[1, 1]] * 2))) + (() if q else (
+            ("Open x Grid", P(o1, g1)), ("SimpleOpen", SO([3], 3, 2, 2, None))))):
         out.append((7, "Flat-serial %s" % lb, F(g, "serial")))
     out.append((7, "Flat-nest Open1d (refused)", F(o1, "nest")))
     # a flat grid as a factor of a product
@@ -297,10 +301,10 @@ def cases(tier, seed):
             continue
         depth = _depth(spec)
         if depth is None or _expected_refusal(spec) is not None or spec.get("all_levels"):
-            out.append((rank, fs, 0, dict(label=label, grid=spec, level="all", tier=tier)))
+            out.append((rank, fs, 0, dict(label=label, fam=fam(spec).split("(")[0], grid=spec, level="all", tier=tier)))
             continue
         for l in range(depth + 1):
-            out.append((rank, fs, l, dict(label=label, grid=spec, level=l, tier=tier)))
+            out.append((rank, fs, l, dict(label=label, fam=fam(spec).split("(")[0], grid=spec, level=l, tier=tier)))
     out.sort(key=lambda t: (t[0], t[1], t[2], t[3]["label"]))
     return [t[3] for t in out]
 
@@ -522,10 +526,12 @@ def _first_bad(mask):
 
 
 def _pad(x):
-    """pad the batch axis (axis 1) to the next power of two by repeating the last column: the library is eager JAX,
+    """pad the batch axis (axis 1) to the next power of 8 by repeating the last column: the library is eager JAX,
     every new array shape costs a compilation of every primitive; padding keeps the number of distinct shapes small"""
     N = x.shape[1]
-    P = 1 << max(0, (N - 1).bit_length())
+    P = 8
+    while P < N:
+        P *= 8
     if P == N:
         return x
     return np.concatenate([x, np.repeat(x[:, -1:], P - N, axis=1)], axis=1)
@@ -578,8 +584,41 @@ def _documented_total(s, rg, l):
     return None
 
 
+_CACHE = [False]
+
+
+def _cache_dir(pid):
+    import tempfile
+    return os.path.join(tempfile.gettempdir(), "vf_c31_jaxcache_%d" % pid)
+
+
+def _shared_compile_cache():
+    """The library is eager JAX: the cost of a case is compiling tiny XLA programs for new shapes.  Pool workers share
+    one per-run on-disk compilation cache (removed by finish()); results are unaffected."""
+    if _CACHE[0]:
+        return
+    _CACHE[0] = True
+    try:
+        import multiprocessing as mp
+        if mp.current_process().name == "MainProcess":
+            return
+        import jax
+        jax.config.update("jax_compilation_cache_dir", _cache_dir(os.getppid()))
+        jax.config.update("jax_persistent_cache_min_compile_time_secs", 0)
+        jax.config.update("jax_persistent_cache_min_entry_size_bytes", -1)
+    except Exception:      # noqa - the cache is only an accelerator
+        pass
+
+
+def finish(run):
+    import shutil
+    shutil.rmtree(_cache_dir(os.getpid()), ignore_errors=True)
+    return {}
+
+
 def run(case):
     t0 = time.process_time()
+    _shared_compile_cache()
     try:
         out = _run(case)
     except Fail as f:
@@ -886,7 +925,7 @@ def _check_resort(s, lv, lv1, rl, rl1, R, chf, tags, stats):
     if got.shape != want.shape or not np.array_equal(got, want):
         if got.shape == want.shape:
             j = _first_bad(got != want)
-            where = "position %s holds the value of child %s" % (j, list(np.unravel_index(int(got[tuple(j)]), want.shape)))
+            where = "position %s holds the value of child %s" % (j, [int(x) for x in np.unravel_index(int(got[tuple(j)]), want.shape)])
         else:
             where = "shape %s, expected %s" % (got.shape, want.shape)
         if _contains_serial_flat(s) and s["k"] == "prod":
